@@ -111,7 +111,7 @@ pub fn run(cx: &Ctx) {
     cx.set_rule("cases = data sets over the C01 domain rescaled by an exact power of two so that n*max|x|^N < 1e300 and rho_N*u > 1e-290, fed one observation at a time to define_moments! types of order N in {4 (crate export Moments4), 5, 6, 8, 10}; len, mean, central_moment(p) and standardized_moment(p) for every p <= N, sample_variance, sample_skewness and sample_excess_kurtosis judged against exact central moments (scale rho_p, constant 2^(p+2)); the fixed values central_moment(0)=1, (1)=0, standardized_moment(0)=n, (1)=0, (2)=1 bit-for-bit; plus cross-agreement with Mean/Variance/Skewness/Kurtosis within two envelopes. Non-trivial = n >= 3 with non-zero spread; distinct = hash of (check, sequence bits)");
     cx.assume("exact oracle and envelopes as in C01; data violating the order-N arithmetic preconditions are discarded and counted");
     let w = cx.workers;
-    let cases = cx.by(150, 3000);
+    let cases = cx.by(1000, 15000);
     let (mid, big) = (cx.by(300, 3000), cx.by(300, 3000));
     macro_rules! go {
         ($chk:expr, $N:expr) => {{
@@ -128,10 +128,10 @@ pub fn run(cx: &Ctx) {
     let strat = move || gen::dataset(2, mid, big, 11.9).prop_map(|xs| Xs { xs: rescale_for_order(&xs, 6) });
     cx.run_pt(&Cross, cases, w, strat, "Moments4/M6 vs Mean, Variance, Skewness, Kurtosis");
     if cx.thorough() {
-        let starts = |salt: u64, n: usize| climb_starts(cx, 64, salt).into_iter().map(|x| Xs { xs: rescale_for_order(&x.xs, n) }).collect::<Vec<_>>();
+        let starts = |salt: u64, n: usize| climb_starts(cx, 128, salt).into_iter().map(|x| Xs { xs: rescale_for_order(&x.xs, n) }).collect::<Vec<_>>();
         cx.label("search");
-        cx.run_climb(&s6(), starts(0xC046, 6), 3000, mutate_xs, "hill-climb 64 x 3000");
-        cx.run_climb(&s10(), starts(0xC04A, 10), 3000, mutate_xs, "hill-climb 64 x 3000");
+        cx.run_climb(&s6(), starts(0xC046, 6), 5000, mutate_xs, "hill-climb 128 x 5000");
+        cx.run_climb(&s10(), starts(0xC04A, 10), 5000, mutate_xs, "hill-climb 128 x 5000");
     }
 }
 
